@@ -164,6 +164,48 @@ func newSTree(s *openapi.ResourceSchema) *sTree {
 // whose schema declares more than one merge key (see the domain note in design.d/C04.md).
 var multiKeyDirective bool
 
+// what grow saw: a directive below an element of a multi-key list; the key tuples of the elements of multi-key lists
+var multiDirSeen bool
+var multiTuples [][]string
+
+// tuplesMergeable mirrors associative_sequence.go match(): equal length, no position where both are set and differ,
+// at least one position equal.
+func tuplesMergeable(a, b []string) bool {
+	if len(a) != len(b) {
+		return false
+	}
+	common := false
+	for i := range a {
+		switch {
+		case a[i] == b[i]:
+			common = true
+		case a[i] != "" && b[i] != "":
+			return false
+		}
+	}
+	return common
+}
+
+// a key tuple of a multi-key list is walked twice only if mergeValues makes two different tuples equal
+func someTuplesMerge() bool {
+	for i := range multiTuples {
+		for j := i + 1; j < len(multiTuples); j++ {
+			same := len(multiTuples[i]) == len(multiTuples[j])
+			if same {
+				for k := range multiTuples[i] {
+					if multiTuples[i][k] != multiTuples[j][k] {
+						same = false
+					}
+				}
+			}
+			if !same && tuplesMergeable(multiTuples[i], multiTuples[j]) {
+				return true
+			}
+		}
+	}
+	return false
+}
+
 // grow follows the schema along the document subtree n.
 func (t *sTree) grow(n *kyaml.Node, inMulti bool) {
 	if n == nil {
@@ -174,7 +216,7 @@ func (t *sTree) grow(n *kyaml.Node, inMulti bool) {
 		for i := 0; i+1 < len(n.Content); i += 2 {
 			k := n.Content[i].Value
 			if inMulti && k == "$patch" {
-				multiKeyDirective = true
+				multiDirSeen = true
 			}
 			c := t.fields[k]
 			if c == nil && !t.noField[k] {
@@ -209,11 +251,25 @@ func (t *sTree) grow(n *kyaml.Node, inMulti bool) {
 						if x.Kind == kyaml.MappingNode {
 							for i := 0; i+1 < len(x.Content); i += 2 {
 								if x.Content[i].Value == "$patch" {
-									multiKeyDirective = true
+									multiDirSeen = true
 								}
 							}
 						}
 					})
+					tup := make([]string, len(t.keys))
+					if e.Kind == kyaml.MappingNode {
+						for ki, key := range t.keys {
+							for i := 0; i+1 < len(e.Content); i += 2 {
+								if e.Content[i].Value == key && tup[ki] == "" {
+									v := e.Content[i+1]
+									if !(v.Kind == kyaml.ScalarNode && v.Tag == "!!null") {
+										tup[ki] = v.Value
+									}
+								}
+							}
+						}
+					}
+					multiTuples = append(multiTuples, tup)
 				}
 				t.elems.grow(e, inMulti || len(t.keys) > 1)
 			}
@@ -285,6 +341,8 @@ func dumpSchemaTree(srcs ...*kyaml.RNode) string {
 	var b strings.Builder
 	cnt := 0
 	multiKeyDirective = false
+	multiDirSeen = false
+	multiTuples = nil
 	for _, r := range roots {
 		rs := openapi.SchemaForResourceType(kyaml.TypeMeta{Kind: r.kind, APIVersion: r.av})
 		if rs == nil {
@@ -312,6 +370,7 @@ func dumpSchemaTree(srcs ...*kyaml.RNode) string {
 	}
 	b.WriteString("rn")
 	b.WriteString(strings.Repeat(")", cnt))
+	multiKeyDirective = multiDirSeen && someTuplesMerge()
 	return b.String()
 }
 
